@@ -429,6 +429,12 @@ func (s *Sess) AwaitShards(cols []uint64) {
 	}
 }
 
+func (s *Sess) setMaxOpN(n int) {
+	for _, cmd := range s.Nd.C {
+		pilosa.VerifDurSetMaxOpN(cmd.Server.Holder(), n)
+	}
+}
+
 // CV is one (concrete column, concrete value) entry of a value import.
 type CV struct {
 	Col uint64
@@ -437,8 +443,15 @@ type CV struct {
 
 // ImportValues sends the batch through API.ImportValue, one request per shard (the order of
 // the entries is preserved inside each request) to the shard's owners.
-func (s *Sess) ImportValues(batch []CV, clear bool) error {
-	s.Log = append(s.Log, fmt.Sprintf("ImportValue(clear=%v, %v)", clear, batch))
+func (s *Sess) ImportValues(batch []CV, clear bool, large bool) error {
+	s.Log = append(s.Log, fmt.Sprintf("ImportValue(clear=%v, large=%v, %v)", clear, large, batch))
+	if large {
+		// force fragment.importValue's direct-write path: it is taken when
+		// len(batch)*(bitDepth+1)+opN >= MaxOpN (fragments the import itself creates keep
+		// the default and take the small path)
+		s.setMaxOpN(1)
+		defer s.setMaxOpN(10000)
+	}
 	byShard := map[uint64][]CV{}
 	var order []uint64
 	for _, e := range batch {
